@@ -441,6 +441,71 @@ func runC02(c *ctx) {
 		return
 	}
 	r := c.r
+	// HISTORIES: a position's verdict must stay what the rules say while its relatives come and go - a search-like walk
+	// through a few reused buffers with moves AND null moves; after every step every position still alive (parents,
+	// grand-parents, the results sitting in the other buffers) is judged again.  The CASE lines carry the verdict of that
+	// moment, so the model comparison covers it as well.
+	for g := 0; g < 24*c.scale; g++ {
+		size := 3 + g%6
+		ps, _ := randomGame(r, tak.Config{Size: size}, 6+r.Intn(40), []int{4, -1, 3}[r.Intn(3)], false)
+		root := ps[len(ps)-1]
+		if over, _ := root.GameOver(); over && len(ps) > 1 {
+			root = ps[len(ps)-2]
+		}
+		bufs := []*tak.Position{tak.Alloc(size), tak.Alloc(size), tak.Alloc(size)}
+		alive := []*tak.Position{root}
+		inBuf := map[*tak.Position]*tak.Position{} // buffer -> the position it holds now
+		cur := root
+		for step := 0; step < 14; step++ {
+			var m tak.Move
+			if r.Intn(3) == 0 {
+				m = tak.Move{Type: tak.Pass}
+			} else {
+				lm := legalMoves(cur)
+				if len(lm) == 0 {
+					break
+				}
+				m = lm[r.Intn(len(lm))]
+			}
+			buf := bufs[r.Intn(len(bufs))]
+			if r.Intn(4) == 0 {
+				buf = nil
+			}
+			if buf == cur {
+				continue
+			}
+			q, err := cur.MovePreallocated(m, buf)
+			if err != nil {
+				continue
+			}
+			if buf != nil {
+				// whatever lived in the buffer is gone
+				old := inBuf[buf]
+				for i, x := range alive {
+					if x == old && old != nil {
+						alive = append(alive[:i], alive[i+1:]...)
+						break
+					}
+				}
+				inBuf[buf] = q
+			}
+			alive = append(alive, q)
+			for _, x := range alive {
+				if x == buf && x != q {
+					continue
+				}
+				emitC02(c, x, "history")
+			}
+			// continue from the new position, or back up to a relative that is still alive
+			cur = q
+			if over, _ := q.GameOver(); over || r.Intn(3) == 0 {
+				cur = alive[r.Intn(len(alive))]
+				if over, _ := cur.GameOver(); over {
+					cur = root
+				}
+			}
+		}
+	}
 	for b := 0; b < 120*c.scale; b++ {
 		emitC02(c, snakeBoard(r, 3+b%6), "snake")
 	}
